@@ -192,6 +192,12 @@ structure DState where
   root : Str := "/r".toList
   fs : List FsEntry := []
 
+/-- add the directories above `p` (the harness creates them with `create_dir_all`) -/
+def withParents (fs : List FsEntry) (p : Str) (self : Bool) : List FsEntry :=
+  let ps := World.prefixes p
+  let ps := if self then ps else ps.dropLast
+  ps.foldl (fun acc q => if acc.any (·.path == q) then acc else acc ++ [{ path := q, isDir := true, content := none, nameOk := true }]) fs
+
 def kv (args : List String) (key : String) : Option String :=
   args.findSome? (fun a => if a.startsWith (key ++ "=") then some ((a.drop (key.length + 1)).toString) else none)
 
@@ -207,8 +213,8 @@ def tokLine (t : Token) : String :=
     | _ => hexOfStr t.lexeme
   s!"{tkName t.kind}|{payload}|{t.line}"
 
-def fsListing (fs : List FsEntry) : String :=
-  let items := fs.map (fun e =>
+def fsListing (root : Str) (fs : List FsEntry) : String :=
+  let items := (fs.filter (fun e => e.nameOk && World.isUnder root e.path)).map (fun e =>
     hexOfStr e.path ++ ":" ++ (if e.isDir then "d" else match e.content with
       | some c => "f" ++ hexOfStr c
       | none => "f!"))
@@ -249,12 +255,15 @@ def runProgram (d : DState) (src : Str) (args : List String) : String × DState 
   | .ok toks =>
     match parse ctx 1000000 toks with
     | .ok prog =>
-      let w : World := { fs := d.fs, stdin := stdin, platform := W.wLinux }
+      -- the scratch root and its ancestors exist as directories
+      let anc := (World.prefixes d.root).filter (fun q => !d.fs.any (·.path == q))
+      let fs0 := d.fs ++ anc.map (fun q => { path := q, isDir := true, content := none, nameOk := true })
+      let w : World := { fs := fs0, stdin := stdin, platform := W.wLinux }
       match runLoop prog mode fuel 0 prog (St.init w) with
       | .ok s =>
-        let extra := (if wantFs then " fs=" ++ fsListing s.world.fs else "") ++
+        let extra := (if wantFs then " fs=" ++ fsListing d.root s.world.fs else "") ++
           (if wantHeap then s!" nlists={s.heap.lists.length} nfreeL={s.heap.freeLists.length} nrecords={s.heap.records.length} nfreeR={s.heap.freeRecords.length} colls={s.gcCount}" else "")
-        (s!"out={outHex s.out} status=ok" ++ extra, { d with fs := s.world.fs })
+        (s!"out={outHex s.out} status=ok" ++ extra, { d with fs := s.world.fs.filter (fun e => World.isUnder d.root e.path) })
       | .err e => (s!"out={outHex e.out} status=" ++ statusOf (Res.err e : Res Unit) true, d)
       | r => ("out=- status=" ++ statusOf r false, d)
     | r => ("out=- status=" ++ statusOf r false, d)
@@ -271,19 +280,19 @@ def handle (d : DState) (line : String) : String × DState :=
     match strOfHex p, strOfHex c with
     | some p, some c =>
       let e : FsEntry := { path := p, isDir := false, content := some c, nameOk := true }
-      ("ok", { d with fs := d.fs.filter (·.path != p) ++ [e] })
+      ("ok", { d with fs := withParents (d.fs.filter (·.path != p)) p false ++ [e] })
     | _, _ => ("bad-request", d)
   | ["BADFILE", p] =>
     match strOfHex p with
-    | some p => ("ok", { d with fs := d.fs.filter (·.path != p) ++ [{ path := p, isDir := false, content := none, nameOk := true }] })
+    | some p => ("ok", { d with fs := withParents (d.fs.filter (·.path != p)) p false ++ [{ path := p, isDir := false, content := none, nameOk := true }] })
     | none => ("bad-request", d)
   | ["BADNAME", p] =>
     match strOfHex p with
-    | some p => ("ok", { d with fs := d.fs.filter (·.path != p) ++ [{ path := p, isDir := false, content := some [], nameOk := false }] })
+    | some p => ("ok", { d with fs := withParents (d.fs.filter (·.path != p)) p false ++ [{ path := p, isDir := false, content := some [], nameOk := false }] })
     | none => ("bad-request", d)
   | ["DIR", p] =>
     match strOfHex p with
-    | some p => ("ok", { d with fs := d.fs.filter (·.path != p) ++ [{ path := p, isDir := true, content := none, nameOk := true }] })
+    | some p => ("ok", { d with fs := withParents d.fs p true })
     | none => ("bad-request", d)
   | ["LEX", h] =>
     match strOfHex h with
